@@ -203,23 +203,24 @@ def tx_name(tx, sg, what="name"):
 
 
 class Template:
-    def __init__(self, name, tparams, params, ret, body, alias, tuples, sem, args, stmt=False, needs=(), globals_=(), callsite=()):
+    def __init__(self, name, tparams, params, ret, body, alias, tuples, sem, args, stmt=False, needs=(), globals_=(), callsite=(), operator=None, opt2=False):
         self.name, self.tparams, self.params, self.ret, self.body = name, tparams, params, ret, body
         self.alias, self.tuples, self.sem, self.args, self.stmt, self.needs, self.globals, self.callsite = alias, tuples, sem, args, stmt, needs, globals_, callsite
+        self.operator, self.opt2 = operator, opt2        # operator: the function overloads this operator (the alias is the expression form)
 
     def fname(self, sg):
         return self.name if sg is None else self.name + "_" + "_".join(sg[t] for t in self.tparams)
 
     def key_word(self):
         """the alias word that is made unique per binding in the specialisation (always the first word)"""
-        return self.alias.split(" ")[0]
+        return "\0" if self.operator else self.alias.split(" ")[0]
 
     def suffix(self, sg):
         return "_" + "_".join(sg[t] for t in self.tparams)
 
     def alias_text(self, sg):
-        if sg is None:
-            return self.alias
+        if sg is None or self.operator:
+            return self.alias                 # an operator is used the same way whichever overload serves it
         w = self.alias.split(" ")
         return " ".join([w[0] + self.suffix(sg)] + w[1:])
 
@@ -257,12 +258,17 @@ class Template:
                     o = TEMPLATES[n]
                     b = b.replace(o.key_word() + " ", o.key_word() + o.suffix(sg) + " ")
             body.append("\t" + b)
+        if self.operator:
+            return "\n".join([head] + body + ['Und überlädt den "%s" Operator.' % self.operator]) + "\n"
         return "\n".join([head] + body + ["Und kann so benutzt werden:", '\t"%s"' % self.alias_text(sg)]) + "\n"
 
-    def call(self, sg, argnames):
+    def call(self, sg, argnames, want=None):
         s = self.alias_text(sg)
         for p, a in zip(self.params, argnames):
             s = s.replace("<%s>" % p[0], a)
+        if want:
+            for k, v in want.items():
+                s = s.replace("{%s}" % k, U[v]["name"])
         return s
 
 
@@ -318,6 +324,34 @@ T_("typalias", ["T"], [("a", "T", False)], "Z", ["Das Wort w ist \"decl\".", "Gi
 T_("typdef", ["T"], [("a", "T", False)], "Z", ["Die Nummer n ist 41 als Nummer.", "Gib (n als Zahl) plus 1 zurück."], "typdef <a>", t_all(SOME),
    lambda sg, a: (42, None), lambda sg: [V(sg["T"])],
    globals_=("Wir definieren eine Nummer als eine Zahl.",), callsite=("Wir definieren eine Nummer als einen Text.",))
+# generic OPERATOR overloads (instantiated through typechecker.findOverload / findOverloadCast), each used with two type
+# tuples in one module, and once from inside an instantiated generic body (summe)
+PAIRV = lambda sg, i=0: V({"Z": "ZP", "T": "TP"}[sg["T"]], i)
+T_("opplus", ["T"], [("a", ("Paar", "T"), False), ("b", ("Paar", "T"), False)], "T", ["Gib erstes von b zurück."], "<a> plus <b>", t_all(["Z", "T"]),
+   lambda sg, a, b: (b[0], None), lambda sg: [PAIRV(sg), PAIRV(sg, 1)], operator="plus")
+T_("opbetrag", ["T"], [("a", ("Paar", "T"), False)], "T", ["Gib zweites von a zurück."], "der Betrag von <a>", t_all(["Z", "T"]),
+   lambda sg, a: (a[1], None), lambda sg: [PAIRV(sg, 1)], operator="Betrag")
+T_("opals", ["T"], [("a", ("Paar", "T"), False)], "T", ["Gib erstes von a zurück."], "<a> als {T}", t_all(["Z", "T"]),
+   lambda sg, a: (a[0], None), lambda sg: [PAIRV(sg, 2)], operator="als")
+T_("opminus", ["T"], [("a", "T", False), ("b", "T", False)], "T", ["Gib b zurück."], "<a> minus <b>", t_all(["P", "ZP", "TP"]),
+   lambda sg, a, b: (b, None), lambda sg: [V(sg["T"]), V(sg["T"], 1)], operator="minus")
+T_("summe", ["T"], [("p", ("Paar", "T"), False), ("q", ("Paar", "T"), False)], "T", ["Gib p plus q zurück."], "summe <p> und <q>", t_all(["Z", "T"]),
+   lambda sg, p, q: (q[0], None), lambda sg: [PAIRV(sg, 2), PAIRV(sg)], needs=("opplus",))
+# the body MUTATES its by-value parameters; the caller prints its own variables afterwards; compiled at -O 0 and -O 2
+T_("mutidx", ["T"], [("l", ("L", "T"), False), ("e", "T", False)], ("L", "T"), ["Speichere e in l an der Stelle 1.", "Gib l zurück."], "mutidx <l> mit <e>", t_all(["Z", "T"]),
+   lambda sg, l, e: ([e] + l[1:], None), lambda sg: [[V(sg["T"], 1), V(sg["T"], 0)], V(sg["T"], 2)], opt2=True)
+T_("mutcat", ["T"], [("l", ("L", "T"), False), ("e", "T", False)], "Z", ["Speichere l verkettet mit e in l.", "Gib die Länge von l zurück."], "mutcat <l> mit <e>", t_all(["Z", "T"]),
+   lambda sg, l, e: (len(l) + 1, None), lambda sg: [[V(sg["T"], 1), V(sg["T"], 0)], V(sg["T"], 2)], opt2=True)
+T_("mutfeld", ["T"], [("p", ("Paar", "T"), False), ("e", "T", False)], "T", ["Speichere e in erstes von p.", "Gib erstes von p zurück."], "mutfeld <p> mit <e>", t_all(["Z", "T"]),
+   lambda sg, p, e: (e, None), lambda sg: [PAIRV(sg), V(sg["T"], 2)], opt2=True)
+T_("mutzu", ["T"], [("a", "T", False), ("b", "T", False)], "T", ["Speichere b in a.", "Gib a zurück."], "mutzu <a> mit <b>", t_all(MAIN8),
+   lambda sg, a, b: (b, None), lambda sg: [V(sg["T"]), V(sg["T"], 1)], opt2=True)
+T_("muterh", ["T"], [("a", "T", False)], "T", ["Erhöhe a um 1.", "Gib a zurück."], "muterh <a>", t_all(["Z", "K"]),
+   lambda sg, a: (a + 1, None), lambda sg: [V(sg["T"])], opt2=True)
+T_("ersetze", ["T"], [("x", "T", True), ("y", "T", False)], None, ["Speichere y in x."], "Ersetze <x> durch <y>", t_all(["Z"]),
+   lambda sg, x, y: (None, [y, y]), lambda sg: [V(sg["T"]), V(sg["T"], 1)], stmt=True)
+T_("mutref", ["T"], [("a", "T", False), ("b", "T", False)], "T", ["Ersetze a durch b.", "Gib a zurück."], "mutref <a> mit <b>", t_all(MAIN8),
+   lambda sg, a, b: (b, None), lambda sg: [V(sg["T"]), V(sg["T"], 1)], needs=("ersetze",), opt2=True)
 T_("lokal", ["T", "R"], [("a", "T", False), ("b", "R", False)], "T", ["Das T x ist a.", "Das R y ist b.", "Das T z ist x.", "Gib z zurück."], "lokal <a> und <b>",
    [dict(T=a, R=b) for a in MAIN8 for b in ("Z", "T", "LT", "ZP")], lambda sg, a, b: (a, None), lambda sg: [V(sg["T"], 1), V(sg["R"])])
 
@@ -414,7 +448,9 @@ def build(t, tuples, sigmas, generic, imported):
         for k, v in zip(keys, vals):
             names.append(prog.declare_list(k[1], v) if isinstance(k, tuple) else prog.declare(k, v))
         res, refs = t.sem(want, *vals)
-        call = t.call(None if generic else {k: sg[k] for k in t.tparams}, names)
+        if t.opt2:
+            refs = None
+        call = t.call(None if generic else {k: sg[k] for k in t.tparams}, names, want)
         if t.stmt:
             prog.lines.append(call + ".")
             for k, n, v in zip(keys, names, refs):
@@ -427,6 +463,14 @@ def build(t, tuples, sigmas, generic, imported):
                 prog.show_list(rk[1], r, res)
             else:
                 prog.show(rk, r, res)
+            if t.opt2:
+                # the body assigns to its by-value parameters: the caller's own variables must be unchanged
+                prog.label("#caller")
+                for k, nme, v in zip(keys, names, vals):
+                    if isinstance(k, tuple):
+                        prog.show_list(k[1], nme, v)
+                    else:
+                        prog.show(k, nme, v)
             if imported == "diamond":
                 # the same instantiation is also requested by a second importing module (mid.ddp)
                 i = len(mid_lines)
@@ -447,12 +491,12 @@ def build(t, tuples, sigmas, generic, imported):
     return files, prog.expect
 
 
-def compile_run(b, root, tag, files):
+def compile_run(b, root, tag, files, opt=0):
     d = os.path.join(root, tag)
     os.makedirs(d, exist_ok=True)
     for f, txt in files.items():
         open(os.path.join(d, f), "w").write(txt)
-    r = b.compile(os.path.join(d, "main.ddp"), os.path.join(d, "main.exe"), cwd=d)
+    r = b.compile(os.path.join(d, "main.ddp"), os.path.join(d, "main.exe"), cwd=d, opt=opt)
     if r["stage"] != "ok":
         return dict(stage=r["stage"], out=r["out"][-1500:])
     rc, so, se = b.run(os.path.join(d, "main.exe"), cwd=d)
@@ -633,7 +677,7 @@ def main():
     ck.cov["trusted_base"] = vlib.TRUSTED_COMMON + [
         "proved: the type-level model Types/Generic.v only; the claim about program behaviour rests on the differential leg (real kddp + LLVM + gcc + runtime on both sides)",
         "the specialised program is produced by this check's renderer from the bindings the extracted model computes (German articles / plural forms of the concrete types); guarded: a specialised program that does not compile while the generic one does is reported, and the unchanged tree has none",
-        "Python semantics of the 17 function templates = expected output",
+        "Python semantics of the 29 function templates = expected output",
         "Fields of instantiated generic Kombinationen and Go nil types are outside the model; mutually recursive generic functions cannot be written in DDP (a generic function must be defined immediately) and are not covered",
     ]
     ck.coq()
@@ -681,24 +725,26 @@ def main():
         for gi, (gname, tup, sgs) in enumerate(groups):
             # shared programs in both placements; isolated instantiations alternate between the placements
             for imported in ((False, True) if gname == "all" else ((gi % 2 == 0),)):
-                jobs.append((t, gname, tup, sgs, imported))
+                jobs.append((t, gname, tup, sgs, imported, 0))
+                if t.opt2 and (gname == "all" or not imported):
+                    jobs.append((t, gname, tup, sgs, imported, 2))      # -O 2: parameter copies may be elided
             if gname == "all" and t.name in DIAMOND:
-                jobs.append((t, gname, tup, sgs, "diamond"))
+                jobs.append((t, gname, tup, sgs, "diamond", 0))
 
     def run_job(job):
-        t, gname, tup, sgs, imported = job
-        tag = "%s_%s_%s" % (t.name, gname, "dia" if imported == "diamond" else "imp" if imported else "same")
+        t, gname, tup, sgs, imported, opt = job
+        tag = "%s_%s_%s_O%d" % (t.name, gname, "dia" if imported == "diamond" else "imp" if imported else "same", opt)
         fg, expect = build(t, tup, sgs, True, imported)
         fs, _ = build(t, tup, sgs, False, imported)
-        rg = compile_run(b, root, tag + "_g", fg)
-        rs = compile_run(b, root, tag + "_s", fs)
+        rg = compile_run(b, root, tag + "_g", fg, opt)
+        rs = compile_run(b, root, tag + "_s", fs, opt)
         return (job, fg, fs, rg, rs, expect)
     t1 = time.time()
     results = vlib.pmap(run_job, jobs)
     n_inst = 0
     harness = []
-    for (t, gname, tup, sgs, imported), fg, fs, rg, rs, expect in results:
-        placement = "two-importing-modules" if imported == "diamond" else "importing-module" if imported else "declaring-module"
+    for (t, gname, tup, sgs, imported, opt), fg, fs, rg, rs, expect in results:
+        placement = ("two-importing-modules" if imported == "diamond" else "importing-module" if imported else "declaring-module") + ("@O2" if opt else "")
         ck.count(len(tup))
         n_inst += len(tup)
         v = judge(t, tup, placement, rg, rs, expect)
@@ -713,7 +759,7 @@ def main():
         small = None
         if len(tup) > 1:
             for w, s in zip(tup, sgs):
-                r1 = run_job((t, "shrink", [w], [s], imported))
+                r1 = run_job((t, "shrink", [w], [s], imported, opt))
                 v1 = judge(t, [w], placement, r1[3], r1[4], r1[5])
                 if v1 is not None and v1[0] == v[0]:
                     small = (w, r1)
@@ -725,7 +771,7 @@ def main():
             tupdesc = "(%d instantiations in one program)" % len(tup)
         ck.violation(v[0] + " types=" + tupdesc, v[1], dict(template=t.name, placement=placement, types=tupdesc, generic_program=fg, specialised_program=fs,
                                                          generic_result=rg, specialised_result=rs, expected_stdout=expect,
-                                                         how="write the files of generic_program / specialised_program into a directory each; kddp kompiliere main.ddp; link; run; compare stdout"))
+                                                         how="write the files of generic_program / specialised_program into a directory each; kddp kompiliere main.ddp -O %d; link; run; compare stdout" % opt))
     if harness:
         ck.broken_obligation("%d program pairs compile in neither form (renderer or toolchain problem), e.g. %s" % (len(harness), harness[0][0]), str(harness[0][1])[:3000])
     log("[c15] program leg: %d program pairs, %d instantiations in %.1fs" % (len(jobs), n_inst, time.time() - t1))
